@@ -319,7 +319,7 @@ Proof.
       destruct (aget sc (c_cache c)) as [w|] eqn:Ec.
       - destruct (Hcw w eq_refl) as (cs0 & Hcs0 & ->). rewrite Hcs in Hcs0. inversion Hcs0. reflexivity.
       - eapply load_canon; eassumption. }
-    pose proof (writeOp_sim c rs (sc, q, r', o) _ HI Hp) as Hw. cbn zeta in Hw.
+    pose proof (writeOp_sim c rs (sc, q, r', o) (canon_w (rows_of sc (c_kv c)) (ref_of sc rs) cs) HI Hp) as Hw. cbn zeta in Hw.
     destruct (Hw (ex_intro _ cs (conj Hcs eq_refl))) as (b & st' & cs' & Hap & Hbs & Hwf' & Hri' & Hcs' & Hst').
     cbn [stage_requests]. rewrite Hload, Hap.
     destruct (IH (aset sc st' lc) (batch ++ b) Hnd' (aset_keys_nodup _ _ _ Hndl)) as (batch'' & lc' & Hst & Hndl' & Hbsc & Hother & Heff).
@@ -394,13 +394,16 @@ Lemma flush_sim c rs pl :
   Inv c rs -> NoDup (map pl_sc pl) -> Forall (planned c rs) pl ->
   exists c', flushWriteRequests c false (map pl_req pl) = (c', 0)
              /\ c_files c' = c_files c /\ c_next c' = c_next c
-             /\ Inv c' (set_refs rs pl).
+             /\ Inv c' (set_refs rs pl)
+             /\ exists batch lc, stage_requests c [] [] (map pl_req pl) = Ok (batch, lc)
+                                 /\ c' = CS (apply_batch (c_kv c) batch) (publish_cache lc (c_cache c)) (c_files c) (c_next c).
 Proof.
   intros HI Hnd Hpl.
   destruct (stage_sim c rs HI pl [] [] Hnd (NoDup_nil _) (fun _ _ => eq_refl) Hpl)
     as (batch & lc & Hst & Hndl & Hbsc & Hother & Heff).
   unfold flushWriteRequests. rewrite Hst. cbn [app].
   eexists. split; [reflexivity|]. cbn [c_files c_next]. split; [reflexivity|]. split; [reflexivity|].
+  split; [|exists batch, lc; split; reflexivity].
   intro sc. rewrite (ref_of_set_refs rs pl sc Hnd).
   unfold ScopeInv. cbn [c_kv c_files c_next c_cache].
   destruct (in_dec N.eq_dec sc (map pl_sc pl)) as [Hin|Hni].
@@ -476,11 +479,10 @@ Proof.
                             | [] => (c1, 0)
                             | _ :: _ => flushWriteRequests c1 (negb true) (map pl_req pl)
                             end) = (c', 0) /\ Inv c' (set_refs rs pl)).
-  { destruct pl as [|p pl'] eqn:Epl.
+  { destruct (flush_sim c1 rs pl HI1 Hnd Hpls) as (c' & Hf & _ & _ & HI' & _).
+    destruct pl as [|p pl'].
     - exists c1. split; [reflexivity|exact HI1].
-    - rewrite <- Epl in *. destruct (flush_sim c1 rs pl HI1 Hnd Hpls) as (c' & Hf & _ & _ & HI').
-      exists c'. split; [|exact HI']. rewrite Epl. cbn [map negb]. rewrite <- Epl. cbn [map] in Hf.
-      rewrite Epl in Hf. cbn [map] in Hf. exact Hf. }
+    - exists c'. split; [exact Hf|exact HI']. }
   destruct Hfl as (c' & Hf & HI').
   replace (0 =? 0) with true by reflexivity. rewrite Hf.
   exists c', pl. split.
@@ -519,10 +521,10 @@ Proof.
                               | _ :: _ => flushWriteRequests c1 true (map pl_req pl)
                               end) = (c1, code)
                              /\ (pl <> [] -> code = errInjected)).
-  { destruct pl as [|p pl'] eqn:Epl.
+  { pose proof (flush_refused c1 rs pl HI1 Hnd Hpls) as Hf.
+    destruct pl as [|p pl'].
     - exists 0. split; [reflexivity|]. intro H. congruence.
-    - rewrite <- Epl in *. exists errInjected. split; [|reflexivity].
-      pose proof (flush_refused c1 rs pl HI1 Hnd Hpls) as Hf. rewrite Epl in *. cbn [map] in *. exact Hf. }
+    - exists errInjected. split; [exact Hf|reflexivity]. }
   destruct Hfl as (code & Hf & Hcode). rewrite Hf.
   eexists. eexists. split; [reflexivity|].
   split.
